@@ -130,8 +130,12 @@ def _prune(keep, maxkeep=14):
             except OSError:
                 pass
     entries.sort(reverse=True)
-    for _, full in entries[maxkeep:]:
-        shutil.rmtree(full, ignore_errors=True)
+    # a build that was used within the last three hours may still be in use
+    # by a long-running check started by another process
+    now = time.time()
+    for mtime, full in entries[maxkeep:]:
+        if now - mtime > 3 * 3600:
+            shutil.rmtree(full, ignore_errors=True)
 
 
 if __name__ == '__main__':
